@@ -58,6 +58,22 @@ def wait_all(procs, timeout):
 
 
 def verify_replay(path, hashseed, scratch, extra_env=None):
+    with open(path) as fh:
+        rep = json.load(fh)
+    if rep.get("hashseed_compare"):
+        # cross-interpreter violation: re-run the case under every listed PYTHONHASHSEED and compare digests
+        digs, txts = {}, []
+        for h in sorted(rep["hashseed_compare"]):
+            out = os.path.join(scratch, "replay-%d-%s.json" % (derive(path) % 10**9, h))
+            p = spawn({"replay": path, "out": out, "hard_timeout_s": 300}, h, extra_env)
+            (rc, txt), = wait_all([p], 330)
+            txts.append(txt)
+            if rc != 0 or not os.path.exists(out):
+                return None, txt
+            with open(out) as fh:
+                digs[h] = json.load(fh)["digest"]
+        differ = len(set(digs.values())) > 1
+        return {"reproduced": differ, "same_message": differ, "same_digest": digs == rep["hashseed_compare"], "violations": [], "digest": digs}, "\n".join(txts)
     out = os.path.join(scratch, "replay-%d.json" % (derive(path) % 10**9))
     p = spawn({"replay": path, "out": out, "hard_timeout_s": 300}, hashseed, extra_env)
     (rc, txt), = wait_all([p], 330)
